@@ -62,8 +62,7 @@ Definition w_builder_drop (w : world) (e : entity) : world :=
   let '(a', r) := a_kill_atomic (w_alloc w) e in
   match r with None => with_alloc w a' | Some _ => w_set_stuck (with_alloc w a') end.
 
-Definition wstep (fixed : bool) (w0 : world) (o : op) : world * wout :=
-  let w := with_env w0 (env_begin (w_env w0)) in
+Definition wstep_core (fixed : bool) (w : world) (o : op) : world * wout :=
   match o with
   | OCreate cs => let '(w1, e) := w_create false w in (w_insert_comps w1 e cs, WHandles [e])
   | OCreateDropped cs =>
@@ -123,6 +122,10 @@ Definition wstep (fixed : bool) (w0 : world) (o : op) : world * wout :=
   | OBad => (w, WSkip)
   end.
 
+(* the effects of the previous operation are forgotten at the start of each step *)
+Definition w_begin (w : world) : world := with_env w (env_begin (w_env w)).
+Definition wstep (fixed : bool) (w : world) (o : op) : world * wout := wstep_core fixed (w_begin w) o.
+
 Fixpoint wrun (fixed : bool) (w : world) (os : list op) : world * list wout :=
   match os with
   | [] => (w, [])
@@ -130,4 +133,6 @@ Fixpoint wrun (fixed : bool) (w : world) (os : list op) : world * list wout :=
                 let '(w2, outs) := wrun fixed w1 os' in (w2, out :: outs)
   end.
 
+(* a panic of the allocator or of the world-level glue (unwrap / expect / assert) *)
+Definition w_alloc_stuck (w : world) : bool := w_stuck w || a_stuck (w_alloc w).
 Definition w_is_stuck (w : world) : bool := w_stuck w || a_stuck (w_alloc w) || cx_stuck (se_cx (w_env w)).
